@@ -23,7 +23,8 @@ RULE = ('(1) Poison: clean tables with one or two poisoned records (non-numeric 
         'the wrong length): RbqlIOHandlingError. (4) Warnings: random CSV texts x input policy x output policy x query through query_csv, and ragged list tables '
         'through query_table; the warning set must equal the set of anomalies present according to reference predicates (field counts citing the first record '
         'of each of the first two lengths, None in CSV output, delimiter inside simple output, BOM, malformed quoting with its first line). '
-        'Non-trivial = poison not in the first record, or a clean input checked for absence of every warning; distinct = case digests.')
+        'Non-trivial = poison not in the first record, or a clean input checked for absence of every warning; distinct = case digests.'
+        ' Later additions: whitespace input policy (zero-field records), multi-pair join-key poison, poison families raising UnicodeError / OSError, multi-character output delimiters with adjacent-field overlap.')
 ASSUMPTIONS = ['record numbers in the field-count warning are asserted for header-less whole-scan queries',
                'for multi-character output delimiters the delimiter-in-output warning is asserted only for fields that contain the whole delimiter or share no character with it']
 
